@@ -683,6 +683,8 @@ G_PLANS = {
         (3, "sym", False, "none", "tocs"),
         (3, "pk", False, "none", "tocs"),
         (3, "shared", False, "none", "tocs"),
+        (3, "sum", False, "none", "tocs"),
+        (2, "sum", False, "single", "full"),
         (2, "sym", False, "full", "full"),
         (2, "mm", False, "full", "full"),
         (2, "pk", False, "single", "full"),
@@ -700,6 +702,8 @@ G_PLANS = {
         (3, "mmout", False, "dose", "full"),
         (3, "mm", False, "dose", "full"),
         (3, "shared", False, "dose", "full"),
+        (3, "sum", False, "dose", "full"),
+        (3, "sum", False, "none", "tocs"),
         (3, "sym", True, "dose", "light"),
         (2, "sym", False, "full", "full"),
         (2, "pk", False, "full", "full"),
